@@ -346,7 +346,10 @@ pub(crate) async fn process_inproc_binding_request_event(
   if let Err(e) = validate_socket_compatibility(request.connector_socket_type, binder_socket_type) {
     tracing::warn!(binder_handle = binder_core_handle, %connector_uri, "Inproc socket type mismatch: {}", e);
     let _ = request.reply_tx.send(Err(e.clone()));
-    return Err(e);
+    // The refusal is the connector's problem: it has been told through the reply channel.
+    // Returning the error here would propagate into the binder's event loop and shut the
+    // whole binder socket down because of what another socket did.
+    return Ok(());
   }
 
   // Channel on which the binder receives frames from the connector.
